@@ -25,6 +25,9 @@ VepOk ==
        C.outcome \in {"reject_start", "reject_stop"} => TouchesStart(C.tx, ev) \/ BeyondEnd(C.tx, ev))
   /\ Clause("vep_inside_accepted",
        (inScope /\ StrictlyInside(C.tx, ev)) => C.outcome = "record")
+  /\ Clause("vep_outside_not_recorded",
+       (C.outcome = "record") =>
+          ~(BeyondEnd(C.tx, ev) \/ (IF C.tx.strand = 1 THEN FootLo(ev) < TxFirst(C.tx) ELSE FootHi(ev) > TxFirst(C.tx))))
   /\ Clause("vep_no_crash", (inScope /\ InGene(C.gene, ev)) => C.outcome # "error")
 
 (* REDItools: thresholds.  counts = <<A, C, G, T>>; gcov = -1 (DNA coverage not     *)
